@@ -38,11 +38,13 @@ structure Obs where
   ifl : Nat
   stat : Nat
   frames : Nat
+  dma : Nat
+  oam : Nat
 
 def parseObs (s : String) : Obs :=
   let xs := parseNatList s
   let g (i : Nat) := xs.getD i 0
-  ⟨g 0, g 1, g 2, g 3, g 4, g 5, g 6, g 7, g 8, g 9, g 10, g 11, g 12, g 13, g 14⟩
+  ⟨g 0, g 1, g 2, g 3, g 4, g 5, g 6, g 7, g 8, g 9, g 10, g 11, g 12, g 13, g 14, g 15, g 16⟩
 
 /-- LY of the closed-form LCD schedule (C14) after `t` clocks from power-on -/
 def lyAfter (t : Nat) : Nat := (LcdSpec.sched t).line
@@ -58,7 +60,7 @@ def checkRun (l : Line) (blocks : Bool) : Verdict := Id.run do
   let image := b            -- the static program image (the programs never write to their own code)
   let regs0 : Interp.Regs := { af := init.getD 0 0, bc := init.getD 1 0, de := init.getD 2 0, hl := init.getD 3 0, sp := 0xdff0, ip := 0xc000 }
   let mut cm : State := { regs := regs0, bus := b, ime := .Disabled, run := .Run }
-  let mut prev : Obs := ⟨0, 0, 0, 144, 0xc000, 0xdff0, regs0.af, regs0.bc, regs0.de, regs0.hl, 1, 0, 0, 0, 0⟩
+  let mut prev : Obs := ⟨0, 0, 0, 144, 0xc000, 0xdff0, regs0.af, regs0.bc, regs0.de, regs0.hl, 1, 0, 0, 0, 0, 160, 0⟩
   let mut total := 0
   let mut k := 0
   let mut nontrivial := false
@@ -106,10 +108,14 @@ def checkRun (l : Line) (blocks : Bool) : Verdict := Id.run do
       | .ok c' =>
         cm := c'
         let got := [c'.delivered % 65536, c'.regs.cycles, c'.regs.ip, c'.regs.sp, c'.regs.af, c'.regs.bc, c'.regs.de, c'.regs.hl,
-                    imeCode c'.ime, runCode c'.run, c'.bus.io.ifl &&& 0x1f, c'.bus.io.video.line, c'.bus.io.video.stat, Sys.frames c']
-        let imp := [cur.div, cur.cyc, cur.ip, cur.sp, cur.af, cur.bc, cur.de, cur.hl, cur.ime, cur.run, cur.ifl &&& 0x1f, cur.ly, cur.stat, cur.frames]
-        let names := ["clocks delivered", "cycles", "PC", "SP", "AF", "BC", "DE", "HL", "IME", "run state", "IF", "LY", "STAT", "frames completed"]
-        for i in [0:14] do
+                    imeCode c'.ime, runCode c'.run, c'.bus.io.ifl &&& 0x1f, c'.bus.io.video.line, c'.bus.io.video.stat, Sys.frames c',
+                    (match c'.bus.dma with | some (_, off) => off | none => 160),
+                    (c'.bus.oam.foldl (fun h b => fnv h b) fnv0).toNat]
+        let imp := [cur.div, cur.cyc, cur.ip, cur.sp, cur.af, cur.bc, cur.de, cur.hl, cur.ime, cur.run, cur.ifl &&& 0x1f, cur.ly, cur.stat, cur.frames,
+                    cur.dma, cur.oam]
+        let names := ["clocks delivered", "cycles", "PC", "SP", "AF", "BC", "DE", "HL", "IME", "run state", "IF", "LY", "STAT", "frames completed",
+                      "OAM DMA progress", "OAM digest"]
+        for i in [0:16] do
           if got.getD i 0 != imp.getD i 0 then
             return .modelDiff s!"step {k}: {names.getD i ""} model={got.getD i 0} impl={imp.getD i 0}"
         if blocks && prev.run == 0 && c'.lastBlockCycles != cur.lbc then
